@@ -110,6 +110,14 @@ def gen_cases(rng, tier):
         cases.append(_case("r%d" % i, hist, rng))
     for i, hist in enumerate((["180:a"], ["200:a"], ["183:a", "200:a"])):
         cases.append(_case("nc%d" % i, hist, rng, nocontact=True))
+    # an application that reads its early dialog late: 2..9 further responses with the same To-tag queue up behind the first one
+    # (the early dialog's channel holds four) and must all arrive, in order, the 2xx last
+    for i in range(12 if tier == "quick" else 120):
+        k = 2 + i % 8
+        hist = ["180:a"] + [rng.choice(["180:a", "183:a", "181:a", "182:a"]) for _ in range(k)] + (["200:a"] if i % 4 != 3 else [])
+        c = _case("q%d" % i, hist, rng)
+        c[3] = "se=1800;slowearly=%d" % (1000 * (len(hist) + 1))
+        cases.append(c)
     return cases
 
 
@@ -132,6 +140,22 @@ def normalize_impl(case, s):
         return "skip"
     hist = case[6].split(",")
     evs = _tokens(s)
+    if "slowearly" in case[3]:
+        # the early dialog was read late: its events are attributed, in order, to the responses that carried its To-tag
+        idx = {}
+        for i, h in enumerate(hist):
+            idx.setdefault(h.split(":")[1], []).append(i)
+        seen = {}
+        ev2 = []
+        for n, tt in evs:
+            p = n.split(":")
+            if p[0] in ("early-prov", "early-session", "early-terminated") and p[1] in idx:
+                k = seen.get(p[1], 0) + 1          # the first response of the tag created the dialog
+                seen[p[1]] = k
+                if k < len(idx[p[1]]) and p[0] != "early-terminated":
+                    tt = 1000 * (idx[p[1]][k] + 1)
+            ev2.append((n, tt))
+        evs = ev2
     res = []
     for i, h in enumerate(hist):
         t = 1000 * (i + 1)
@@ -231,7 +255,12 @@ def oracle(case, impl):
         if ok and routes not in ok:
             return ["session route set %r is not the reversed Record-Route of its responses (%r)" % (routes, sorted(ok))]
     fin = [t for n, t in _tokens(impl) if n == "finished"]
-    if first2xx is not None:
+    if first2xx is not None and "slowearly" in case[3]:
+        # the initiator waited for the application to drain the early dialog's channel before it saw the 2xx: the 64*T1 run from then
+        slow = int(case[3].split("slowearly=")[1])
+        if len(fin) != 1 or not (first2xx + 32000 <= fin[0] <= slow + 32000):
+            return ["completion reported at %r, expected once between %d and %d" % (fin, first2xx + 32000, slow + 32000)]
+    elif first2xx is not None:
         if fin != [first2xx + 32000]:
             return ["completion reported at %r, expected first 2xx + 64*T1 = %d" % (fin, first2xx + 32000)]
     return []
